@@ -232,10 +232,12 @@ class Prefixed(BaseModel):
         return float(self._value())
 
     def __neg__(self) -> "Prefixed":
-        return Prefixed.new(-self.number, self.prefix)
+        with _exact(self.number):  # Unary operators also round to the context-precision
+            return Prefixed.new(-self.number, self.prefix)
 
     def __abs__(self) -> "Prefixed":
-        return Prefixed.new(abs(self.number), self.prefix)
+        with _exact(self.number):
+            return Prefixed.new(abs(self.number), self.prefix)
 
     def __mul__(self, other) -> "Prefixed":
         if isinstance(other, Prefixed):
